@@ -11,6 +11,7 @@ import (
 	"strconv"
 	"strings"
 	"testing"
+	"time"
 
 	"github.com/peterstace/simplefeatures/geom"
 	"pgregory.net/rapid"
@@ -942,11 +943,12 @@ var _ = sort.Strings
 
 func TestC06(t *testing.T) {
 	h.Run(t, h.Prop[C06Case]{
-		ID:          "C06",
-		Rule:        "three case families drawn by rapid: (geom) a valid-by-construction geometry model (7 types x 4 coordinate types, empty members, nested collections, zero values, XY scaled by 2^k, Z/M over finite float64 classes) -> MarshalJSON is checked with encoding/json + an RFC 7946 structure validator and UnmarshalGeoJSON / json.Unmarshal into Geometry and all 7 concrete types against the harness-computed image (M dropped, empty Points omitted from MultiPoints, Z kept iff >= 1 position); (doc) a GeoJSON document from a grammar (positions of length 0..5, non-numeric elements, wrong nesting depth, null/missing coordinates, unknown/missing type, extra members, nested collections) -> expected error / expected value computed from the document; (feature) Feature and FeatureCollection with generated id (absent/string/number/0), properties, foreign members (incl. names differing only in case from reserved ones) compared as decoded JSON, malformed features rejected; non-trivial = a collection or >= 2 positions with Z/M or an empty member (geom), a well-formed document (doc), a feature with id or foreign members (feature)",
-		Assumptions: []string{"encoding/json", "RFC 7946 structure validator in props/c06_test.go", "documents whose meaning RFC 7946 leaves open (null coordinates, GeometryCollection without geometries) may either be rejected or decode to the empty geometry"},
-		Gen:         c06Gen,
-		Check:       c06Check,
+		ID:              "C06",
+		WholeCheckLimit: 300 * time.Second,
+		Rule:            "three case families drawn by rapid: (geom) a valid-by-construction geometry model (7 types x 4 coordinate types, empty members, nested collections, zero values, XY scaled by 2^k, Z/M over finite float64 classes) -> MarshalJSON is checked with encoding/json + an RFC 7946 structure validator and UnmarshalGeoJSON / json.Unmarshal into Geometry and all 7 concrete types against the harness-computed image (M dropped, empty Points omitted from MultiPoints, Z kept iff >= 1 position); (doc) a GeoJSON document from a grammar (positions of length 0..5, non-numeric elements, wrong nesting depth, null/missing coordinates, unknown/missing type, extra members, nested collections) -> expected error / expected value computed from the document; (feature) Feature and FeatureCollection with generated id (absent/string/number/0), properties, foreign members (incl. names differing only in case from reserved ones) compared as decoded JSON, malformed features rejected; non-trivial = a collection or >= 2 positions with Z/M or an empty member (geom), a well-formed document (doc), a feature with id or foreign members (feature)",
+		Assumptions:     []string{"encoding/json", "RFC 7946 structure validator in props/c06_test.go", "documents whose meaning RFC 7946 leaves open (null coordinates, GeometryCollection without geometries) may either be rejected or decode to the empty geometry"},
+		Gen:             c06Gen,
+		Check:           c06Check,
 	})
 }
 
